@@ -110,7 +110,7 @@ v("c06-lock-dropped", {"C06"}, (SPC, "            with worker_locks[worker_id]:\
 v("c06-multiplicity-guard-dropped", {"C06"}, (AW, "                        if m != 1:\n                            utils.logger.critical", "                        if False:\n                            utils.logger.critical", 1))
 # ----------------------------------------------------------------------------------------------- C07 / C08
 v("c07-9ab-dropped", {"C07"}, (KLAE, "            self.solver.add_constraint(\n                self.solver.quicksum(self.pi_vars[(u, v, i)] for i in range(self.k)) - f_u_v <= self.edge_errors_vars[(u, v)],\n                name=f\"9ab_u={u}_v={v}_i={i}\",\n            )\n", "", 1))
-v("c07-objective-unscaled-writer", {"C07"}, (KLAEC, "                self.edge_errors_vars[(u, v)] * self.edge_error_scaling.get((u, v), 1) if self.edge_error_scaling.get((u, v), 1) != 1 else self.edge_errors_vars[(u, v)]", "                self.edge_errors_vars[(u, v)]", 1))
+v("c07-objective-unscaled-writer", {"C07"}, (KLAEC, "                self.edge_errors_vars[(u, v)] * float(self.edge_error_scaling.get((u, v), 1)) if self.edge_error_scaling.get((u, v), 1) != 1 else self.edge_errors_vars[(u, v)]", "                self.edge_errors_vars[(u, v)]", 1))
 v("c07-reader-unscaled", {"C07"}, (KLAE, "return sum(error * self.edge_error_scaling.get(edge, 1) for edge, error in edge_errors.items())", "return sum(edge_errors.values())", 1))
 v("c08-scale-on-slack-side", {"C08"}, (KMPEC, "<= self.solver.quicksum(self.gamma_vars[(u, v, i)] for i in range(self.k)),\n                name=f\"9aa_u={u}_v={v}_i={i}\",", "<= self.solver.quicksum(self.gamma_vars[(u, v, i)] for i in range(self.k - 1)),\n                name=f\"9aa_u={u}_v={v}_i={i}\",", 1))
 v("c08-objective-max", {"C08"}, (KMPE, "self.solver.quicksum(self.path_slacks_vars[(i)] for i in range(self.k)), sense=\"minimize\"", "self.solver.quicksum(self.path_slacks_vars[(i)] for i in range(self.k)), sense=\"maximize\"", 1))
@@ -217,8 +217,8 @@ v("c11-reader-dedup-guard", {"C11", "C02", "C14"}, (NED, "                if nod
 v("c11-translator-filters-constraint-nodes", {"C11", "C03", "C10"}, (NED, "                expanded_constraint.append((node + '.0', node + '.1'))",
                                                                       "                if self.node_flow_attr in self.original_G.nodes[node]:\n                    expanded_constraint.append((node + '.0', node + '.1'))", 1))
 v("c11-translator-filters-starts", {"C11", "C10"}, (NED, "        return [self.get_expanded_edge(node)[0] for node in additional_starts]", "        return [self.get_expanded_edge(node)[0] for node in additional_starts if self.original_G.in_degree(node) > 0]", 1))
-v("c06-flow-safety-threshold-strict", {"C06", "C05"}, ("flowpaths/utils/safetyflowdecomp.py", "if inexact_excess + rightdiff <= 0:", "if inexact_excess + rightdiff < 0:", 1))
-v("benign-flow-safety-threshold-restyled", B, ("flowpaths/utils/safetyflowdecomp.py", "if inexact_excess + rightdiff <= 0:", "if 0 >= rightdiff + inexact_excess:", 1))
+v("c06-flow-safety-threshold-strict", {"C06", "C05"}, ("flowpaths/utils/safetyflowdecomp.py", "if inexact_excess + rightdiff <= 1e-9:", "if inexact_excess + rightdiff < 0:", 1))
+v("benign-flow-safety-threshold-restyled", B, ("flowpaths/utils/safetyflowdecomp.py", "if inexact_excess + rightdiff <= 1e-9:", "if 1e-9 >= rightdiff + inexact_excess:", 1))
 # --- C17.R4 reachability DP direction
 SDAG = "flowpaths/stdag.py"
 SDG = "flowpaths/stdigraph.py"
@@ -233,11 +233,11 @@ v("benign-dp-renamed", B, (SDAG, "            for node in self.topological_order
 # --- C19.R4 conservation validator body
 GU = "flowpaths/utils/graphutils.py"
 v("c19-conservation-extra-exemption", {"C19"}, (GU, "        if G.out_degree(v) == 0 or G.in_degree(v) == 0:\n            continue\n\n        out_flow = 0", "        if G.out_degree(v) <= 1 or G.in_degree(v) == 0:\n            continue\n\n        out_flow = 0", 1))
-v("c19-conservation-one-sided", {"C19"}, (GU, "        if not math.isclose(out_flow, in_flow, rel_tol=1e-9, abs_tol=1e-9):\n            return False", "        if out_flow > in_flow:\n            return False", 1))
-v("c19-conservation-exact", {"C19"}, (GU, "        if not math.isclose(out_flow, in_flow, rel_tol=1e-9, abs_tol=1e-9):\n            return False", "        if out_flow != in_flow:\n            return False", 1))
-v("c19-conservation-loose", {"C19"}, (GU, "        if not math.isclose(out_flow, in_flow, rel_tol=1e-9, abs_tol=1e-9):\n            return False", "        if not math.isclose(out_flow, in_flow, rel_tol=1e-9, abs_tol=0.5):\n            return False", 1))
-v("c19-conservation-early-accept", {"C19"}, (GU, "        if not math.isclose(out_flow, in_flow, rel_tol=1e-9, abs_tol=1e-9):\n            return False\n\n    return True", "        if not math.isclose(out_flow, in_flow, rel_tol=1e-9, abs_tol=1e-9):\n            return False\n        return True\n\n    return True", 1))
-v("benign-conservation-renamed", B, (GU, "        if not math.isclose(out_flow, in_flow, rel_tol=1e-9, abs_tol=1e-9):\n            return False", "        if not math.isclose(in_flow, out_flow, rel_tol=1e-9, abs_tol=1e-9):\n            return False", 1))
+v("c19-conservation-one-sided", {"C19"}, (GU, "        elif not math.isclose(out_flow, in_flow, rel_tol=1e-9, abs_tol=1e-9):\n            return False", "        elif out_flow > in_flow:\n            return False", 1))
+v("c19-conservation-exact", {"C19"}, (GU, "        elif not math.isclose(out_flow, in_flow, rel_tol=1e-9, abs_tol=1e-9):\n            return False", "        elif out_flow != in_flow:\n            return False", 1))
+v("c19-conservation-loose", {"C19"}, (GU, "        elif not math.isclose(out_flow, in_flow, rel_tol=1e-9, abs_tol=1e-9):\n            return False", "        elif not math.isclose(out_flow, in_flow, rel_tol=1e-9, abs_tol=0.5):\n            return False", 1))
+v("c19-conservation-early-accept", {"C19"}, (GU, "        elif not math.isclose(out_flow, in_flow, rel_tol=1e-9, abs_tol=1e-9):\n            return False\n\n    return True", "        elif not math.isclose(out_flow, in_flow, rel_tol=1e-9, abs_tol=1e-9):\n            return False\n        return True\n\n    return True", 1))
+v("benign-conservation-renamed", B, (GU, "        elif not math.isclose(out_flow, in_flow, rel_tol=1e-9, abs_tol=1e-9):\n            return False", "        elif not math.isclose(in_flow, out_flow, rel_tol=1e-9, abs_tol=1e-9):\n            return False", 1))
 # --- C17.R5 / C02.R8 peeling
 v("c17-peel-skips-last-edge", {"C17", "C02"}, (SDAG, "            for i in range(len(path) - 1):\n                temp_G[path[i]][path[i + 1]][flow_attr] -= bottleneck", "            for i in range(len(path) - 2):\n                temp_G[path[i]][path[i + 1]][flow_attr] -= bottleneck", 1))
 v("c17-peel-max-instead-of-min", {"C17", "C02"}, (GU, "uBottleneck = min(B[u], G.edges[u, v][flow_attr])", "uBottleneck = max(B[u], G.edges[u, v][flow_attr])", 1))
@@ -248,14 +248,14 @@ v("benign-peel-renamed", B, (SDAG, "            for i in range(len(path) - 1):\n
 v("benign-rename-private-encoder", B, (KFD, "_encode_flow_decomposition_with_given_weights", "_encode_decomposition_with_given_weights", 2))
 v("benign-extract-objective-helper", B, (KPC, "    def get_solution(self):", "    def _noop_helper(self, x):\n        y = x\n        return y\n\n    def get_solution(self):", 1))
 # --- rules added after the defect hunts (reverts/ holds the break side: the reverse of every repair); shapes the rules must accept
-v("benign-cap-guard-reordered", B, (KFDC, "            (u, v): (data[self.flow_attr] if self.flow_attr in data and (u, v) not in self.edges_to_ignore else self.w_max)\n",
-                                   "            (u, v): (self.w_max if (u, v) in self.edges_to_ignore or self.flow_attr not in data else data[self.flow_attr])\n", 1))
-v("c10-cap-guard-dropped-again", {"C10", "C04"}, (KFDC, "            (u, v): (data[self.flow_attr] if self.flow_attr in data and (u, v) not in self.edges_to_ignore else self.w_max)\n",
-                                              "            (u, v): (data[self.flow_attr] if self.flow_attr in data else self.w_max)\n", 1))
+v("benign-cap-guard-reordered", B, (KFDC, "            (u, v): (data[self.flow_attr] if self.flow_attr in data and (u, v) not in self.edges_to_ignore else ignored_edge_bound)\n",
+                                   "            (u, v): (ignored_edge_bound if (u, v) in self.edges_to_ignore or self.flow_attr not in data else data[self.flow_attr])\n", 1))
+v("c10-cap-guard-dropped-again", {"C10", "C04"}, (KFDC, "            (u, v): (data[self.flow_attr] if self.flow_attr in data and (u, v) not in self.edges_to_ignore else ignored_edge_bound)\n",
+                                              "            (u, v): (data[self.flow_attr] if self.flow_attr in data else ignored_edge_bound)\n", 1))
 v("benign-emptiness-ifexp", B, (KFD, "        internal_paths = solution.get(\"_paths_internal\", solution[\"paths\"])\n",
                                 "        internal_paths = solution[\"_paths_internal\"] if \"_paths_internal\" in solution else solution[\"paths\"]\n", 1))
-v("c01-emptiness-on-condensed", {"C01", "C02"}, (KFD, "            if len(internal_path) > 1:\n                non_empty_internal.append(internal_path)\n",
-                                               "            if len(path) > 1:\n                non_empty_internal.append(internal_path)\n", 1))
+v("c01-emptiness-on-condensed", {"C01", "C02"}, (KFD, "            if len(internal_path) > 0:\n                non_empty_internal.append(internal_path)\n",
+                                               "            if len(path) > 0:\n                non_empty_internal.append(internal_path)\n", 1))
 v("benign-nan-proof-other-spelling", B, (AP, "            if not (0 < self.subpath_constraints_coverage <= 1):", "            if not (self.subpath_constraints_coverage > 0 and self.subpath_constraints_coverage <= 1):", 1))
 v("c19-nan-range-again", {"C19"}, (AW, "            if not (0 < self.subset_constraints_coverage <= 1):", "            if self.subset_constraints_coverage <= 0 or self.subset_constraints_coverage > 1:", 1))
 v("benign-threads-reset-local", B, (SW, "            if SolverWrapper._highs_scheduler_threads not in (None, self.threads):\n                highspy.Highs.resetGlobalScheduler(True)\n",
@@ -275,3 +275,14 @@ v("c16-error-from-variables-again", {"C16"}, (MEF, "        error = sum(\n      
                                              "        error = sum(self.solver.get_values(self.edge_error_vars).values())\n", 1))
 v("c05-greedy-with-superset-again", {"C05"}, (KFD, " and satisfies_flow_conservation and solution_weights_superset is None:", " and satisfies_flow_conservation:", 1))
 v("c11-length-attr-dropped-again", {"C11", "C10"}, (KPC, "node_flow_attr=node_flow_attr, node_length_attr=length_attr)", "node_flow_attr=node_flow_attr)", 1))
+# --- round 3
+v("benign-options-none-or", B, ("flowpaths/minsetcover.py", "        self.solver_options = solver_options if solver_options is not None else {}", "        self.solver_options = solver_options or {}", 1))
+v("benign-options-none-ifstmt", B, ("flowpaths/mingenset.py", "        self.solver_options = solver_options if solver_options is not None else {}", "        if solver_options is None:\n            solver_options = {}\n        self.solver_options = solver_options", 1))
+v("c19-options-raw-again", {"C19"}, ("flowpaths/minsetcover.py", "        self.solver_options = solver_options if solver_options is not None else {}", "        self.solver_options = solver_options", 1))
+v("benign-mingenset-start-validated", B, ("flowpaths/mingenset.py", "        for k in range(max(1, self.lowerbound), ", "        for k in range(max(self.lowerbound, 1), ", 1))
+v("c15-mingenset-start-raw", {"C15"}, ("flowpaths/mingenset.py", "        for k in range(max(1, self.lowerbound), ", "        for k in range(self.lowerbound, ", 1))
+v("c15-mingenset-start-clamped-to-zero", {"C15"}, ("flowpaths/mingenset.py", "        for k in range(max(1, self.lowerbound), ", "        for k in range(max(0, self.lowerbound), ", 1))
+v("benign-conservation-int-branch-restyled", B, (GU, "            out_flow += int(data[flow_attr]) if isinstance(data[flow_attr], numbers.Integral) else data[flow_attr]", "            value = data[flow_attr]\n            out_flow += int(value) if isinstance(value, numbers.Integral) else value", 1))
+v("c19-conservation-raw-sum", {"C19"}, (GU, "            out_flow += int(data[flow_attr]) if isinstance(data[flow_attr], numbers.Integral) else data[flow_attr]", "            out_flow += data[flow_attr]", 1))
+v("benign-antichain-fraction-import-style", B, ("flowpaths/stdag.py", "                    edge_demand = Fraction(float(edge_demand))", "                    edge_demand = Fraction(edge_demand)", 1))
+v("c17-antichain-demand-rounded", {"C17"}, ("flowpaths/stdag.py", "                    edge_demand = Fraction(float(edge_demand))", "                    edge_demand = int(edge_demand)", 1))
